@@ -72,6 +72,10 @@ def shapes(n):
         yield [(), (), (0, 1)]
     elif n == 5:
         yield [(), (), (0,), (1,), (2, 3)]
+    elif n == "5b":
+        # overloaded root, unmarked plain mixin, marked mixin; one class extending root + plain mixin, and an
+        # independent sibling that joins all three (the earlier sibling must not change what the later one gets)
+        yield [(), (), (), (0, 1), (0, 1, 2)]
     else:
         yield [(), (0,), (0,), (1, 2)]
         yield [(), (0,), (1,), (2,)]
@@ -102,9 +106,12 @@ def def_options(tier, is_root, has_ovld_base, kind=None):
 
 
 def programs(tier):
-    sizes = (1, 2, 3, 5) if tier == "quick" else (1, 2, 3, 4, 5)
+    sizes = (1, 2, 3, 5, "5b") if tier == "quick" else (1, 2, 3, 4, 5, "5b")
     for n in sizes:
         for bases in shapes(n):
+            if n == "5b":
+                yield from programs_5b(tier, bases)
+                continue
             roots = [i for i in range(n) if not bases[i]]
             kinds_opts = []
             for i in range(n):
@@ -134,6 +141,20 @@ def programs(tier):
                     if not defs[roots[0]]:
                         continue
                     yield Spec([(f"C{i}", tuple(f"C{b}" for b in bases[i]), kinds[i], defs[i]) for i in range(n)])
+
+
+def programs_5b(tier, bases):
+    keys = ("int", "str", "list") if tier == "quick" else ("int", "str", "list", "wrap")
+    for k0 in ("base", "meta"):
+        for k2 in ("plain", "base"):
+            for d0 in [[(k, False)] for k in keys] + [[("int", False), ("str", False)]]:
+                for d1 in [[(k, False)] for k in ("int", "str", "list")]:
+                    for d2 in [[(k, True)] for k in ("int", "str")]:
+                        for d3 in [[]] + [[(k, True)] for k in keys]:
+                            for d4 in [[]] + [[(k, True)] for k in keys[:2]]:
+                                defs = [d0, d1, d2, d3, d4]
+                                kinds = [k0, "plain", k2, "sub", "sub"]
+                                yield Spec([(f"C{i}", tuple(f"C{b}" for b in bases[i]), kinds[i], defs[i]) for i in range(5)])
 
 
 class RefMethodSpec(dict):
@@ -272,6 +293,78 @@ def _overlay(inherited, own):
     return out + own
 
 
+def ancestors(spec, name):
+    by = {n: b for n, b, k, d in spec.classes}
+    out, todo = set(), [name]
+    while todo:
+        c = todo.pop()
+        for b in by[c]:
+            if b not in out:
+                out.add(b)
+                todo.append(b)
+    return out
+
+
+def plain_tables(classes, mids):
+    """Outcome table of every class of a program built from scratch (no judging): name -> rows | ('error', exc name)."""
+    log = []
+    glb = {"LOG": log, "__name__": "vtgen"}
+    exec("from ovld import OvldBase, OvldMC, extend_super, ovld, recurse, call_next", glb, glb)
+    gen._FACTORY_GLOBALS.append(glb)
+    fname = f"<vtgen:c17:{next(_counter)}>"
+    src = ""
+    out = {}
+    failed = None
+    for name, bases, kind, defs in classes:
+        if failed:
+            out[name] = failed
+            continue
+        chunk = class_source(name, bases, kind, defs, mids[name])
+        lineno = src.count("\n") + 1
+        src += chunk
+        linecache.cache[fname] = (len(src), None, src.splitlines(True), fname)
+        try:
+            exec(compile("\n" * (lineno - 1) + chunk, fname, "exec"), glb, glb)
+        except Exception as e:  # noqa
+            failed = out[name] = ("error", type(e).__name__)
+            continue
+        inst = glb[name]()
+        rows = []
+        for vn, v in VALUES:
+            del log[:]
+            f = getattr(inst, "f", None)
+            if f is None:
+                rows.append(("nodef", ()))
+                continue
+            o = gen.run_call(f, (v,), {}, [])
+            rows.append((o[0], tuple(e[0] for e in log)))
+        out[name] = rows
+    return out
+
+
+def independence(spec, acc, report):
+    """(iv) a class behaves the same whether or not unrelated / sibling classes were defined before it."""
+    mids = {name: 10 * i for i, (name, b, k, d) in enumerate(spec.classes)}
+    full = None
+    for i, (name, bases, kind, defs) in enumerate(spec.classes):
+        anc = ancestors(spec, name)
+        earlier = {n for n, b, k, d in spec.classes[:i]}
+        if earlier <= anc:
+            continue
+        if full is None:
+            full = plain_tables(spec.classes, mids)
+        alone = plain_tables([c for c in spec.classes[: i + 1] if c[0] in anc or c[0] == name], mids)
+        if acc is not None:
+            acc.count("independence_checks")
+            acc.count("evaluations", 2 * len(VALUES))
+        if full[name] != alone[name]:
+            a, b = alone[name], full[name]
+            diff = [("class statement", a, b)] if isinstance(a, tuple) or isinstance(b, tuple) else \
+                [(VALUES[j][0], list(x), list(y)) for j, (x, y) in enumerate(zip(a, b)) if x != y]
+            report("leak:depends-on-unrelated-earlier-classes", {"without_them": str(diff[0][1])[:120], "with_them": str(diff[0][2])[:120],
+                                                               "value": diff[0][0], "unrelated": sorted(earlier - anc)}, name)
+
+
 def run_program(spec, acc):
     log = []
     src = "from ovld import OvldBase, OvldMC, extend_super, ovld, recurse, call_next\n"
@@ -363,6 +456,7 @@ def run_program(spec, acc):
             if (got_kind, list(row[1])) != (kind_exp, trace_exp):
                 report(f"merge:{kind_exp}->{got_kind}", {"value": vn, "expected": [kind_exp, trace_exp], "got": [got_kind, list(row[1])],
                                                           "effective": [[m["id"], m["types"]["x"], m["prio"]] for m in ms]}, name)
+    independence(spec, acc, report)
     return found
 
 
@@ -398,7 +492,10 @@ def main(tier):
              "priority wrapper with call_next, object fallback), each optionally marked extend_super x an instance of every class x "
              "every corpus value; (i) before/after differential: defining a class never changes the outcome table of an existing "
              "class; (ii) where the statement speaks (roots; subclasses whose first definition is marked) the logged chain equals "
-             "R1-R5 on inherited + own methods; (iii) self is the instance in every entered body; non-trivial = classes judged by (ii)",
+             "R1-R5 on inherited + own methods; (iii) self is the instance in every entered body; (iv) independence: every class has the same "
+             "outcome table whether or not the earlier classes that are not its ancestors were defined (the program is rebuilt with its "
+             "ancestors only); a second 5-class shape: overloaded root, unmarked plain mixin, marked mixin, a class extending root + plain "
+             "mixin and an independent sibling joining all three; non-trivial = classes judged by (ii)",
         assumptions=["abstains (only (i) and (iii) apply) for: unmarked definitions in a subclass, classes without own definition under several "
                      "bases, a mark on a later definition only, two bases contributing different functions for one signature"],
     )
